@@ -71,9 +71,26 @@ func init() {
 			sc.Clients = append(sc.Clients, ops)
 		}
 		ex := &ExploreCfg{Seed: seed, PreemptP: 0.3, DelayP: 0.05, FaultP: 0, MaxFaults: 0}
-		if r.Chance(0.6) {
-			ex.FaultP, ex.MaxFaults = 0.06, 3
-			ex.Kinds = []FaultKind{FExporterErr, FExporterItemErr, FStorageErr, FCrash}
+		if r.Chance(0.65) {
+			// swarm: each run enables its own subset of fault kinds. A crash is admitted at almost every
+			// yield, the exporter and storage faults only at the worker's own yields: runs without crash get a
+			// higher rate so that those faults fire at all.
+			var ks []FaultKind
+			for _, k := range []FaultKind{FExporterErr, FExporterItemErr, FStorageErr, FCrash} {
+				if r.Chance(0.45) {
+					ks = append(ks, k)
+				}
+			}
+			if len(ks) == 0 {
+				ks = []FaultKind{Pick(r, []FaultKind{FExporterErr, FExporterItemErr, FStorageErr})}
+			}
+			ex.Kinds = ks
+			ex.FaultP, ex.MaxFaults = 0.25, 1+r.Intn(4)
+			for _, k := range ks {
+				if k == FCrash {
+					ex.FaultP = 0.04
+				}
+			}
 		}
 		return sc, ex
 	}})
